@@ -52,7 +52,7 @@ func (c *countingCtx) Value(any) any { return nil }
 var mateInOne = []string{
 	"6k1/5ppp/8/8/8/8/8/R3K3 w Q - 0 1",
 	"r1bqkb1r/pppp1ppp/2n2n2/4p2Q/2B1P3/8/PPPP1PPP/RNB1K1NR w KQkq - 4 4",
-	"7k/8/5QK1/8/8/8/8/8 w - - 2 2",
+	"7k/5Q2/6K1/8/8/8/8/8 w - - 2 2",
 	"rnbqkbnr/pppp1ppp/8/4p3/6P1/5P2/PPPPP2P/RNBQKBNR b KQkq - 0 2",
 }
 
